@@ -129,4 +129,18 @@ theorem deep_witness :
     (match newDepthCollector cfgNoDup [] sdtDoc with | .ok dc => elemsOf (leafParsL dc.root) | .error _ => []) = [1, 7, 15, 20] := by
   decide +kernel
 
+/-- a body with a paragraph holding a hyperlink, a content control around a paragraph with comment range markers,
+a display equation and a paragraph -/
+def linkDoc : Xml :=
+  el 0 "body" [] none [p 1 [r 2 [t 3 "see "], el 4 "hyperlink" [(⟨some (lit "R"), lit "id"⟩, lit "rId9")] none [r 5 [t 6 "link"]], r 7 [t 8 " end"]],
+    el 10 "sdt" [] none [el 11 "sdtContent" [] none [p 12 [el 13 "commentRangeStart" [wattr "id" "0"] none [], r 14 [t 15 "x"], el 16 "commentRangeEnd" [wattr "id" "0"] none []]]],
+    strayEq, p 20 [r 21 [t 22 "z"]]]
+
+/-- non-vacuity of `C02_deep_once_in_order` for paragraphs with links and markers (`isSimplePar`) -/
+theorem deep_links_witness :
+    deepPartOK linkDoc = true ∧
+    linkDoc.kids.flatMap (fun k => if deep 6 k then out 6 k else []) = [1, 12, 20] ∧
+    (match newDepthCollector cfgNoDup [] linkDoc with | .ok dc => elemsOf (leafParsL dc.root) | .error _ => []) = [1, 12, 20] := by
+  decide +kernel
+
 end D2P.Ex
